@@ -453,6 +453,22 @@ class TransformationInstructionsGenerator:
         transformations.append(trans_rule)
     if producer_trans_rule.consumers:
       transformations.insert(0, producer_trans_rule)
+    elif (
+        not transformations
+        and producer_trans_rule.transformation
+        == qtyping.QuantTransformation.ADD_DEQUANTIZE
+    ):
+      # The tensor has no consumer at all (not even the graph output), but its
+      # producer still emits quantized values: quantize the tensor itself.
+      transformations.append(
+          qtyping.TransformationInst(
+              qtyping.QuantTransformation.QUANTIZE_TENSOR,
+              producer_trans_rule.tensor_id,
+              producer_trans_rule.producer,
+              [],
+              producer_trans_rule.parameters,
+          )
+      )
     return transformations
 
   def _quant_params_to_transformation_insts(
